@@ -516,13 +516,21 @@ func (tx *Tx) buildListIdx(bucket string, entry *Entry) {
 func (tx *Tx) rotateActiveFile() error {
 	var err error
 	fID := tx.db.MaxFileID
-	tx.db.MaxFileID++
 
 	if !tx.db.opt.SyncEnable && tx.db.opt.RWMode == MMap {
 		if err := tx.db.ActiveFile.rwManager.Sync(); err != nil {
 			return err
 		}
 	}
+
+	// create the next data file before giving up the current one: if it cannot
+	// be created the database must keep a usable active file
+	newFile, err := NewDataFile(tx.db.getDataPath(fID+1), tx.db.opt.SegmentSize, tx.db.opt.RWMode)
+	if err != nil {
+		return err
+	}
+
+	tx.db.MaxFileID++
 
 	if err := tx.db.ActiveFile.rwManager.Close(); err != nil {
 		return err
@@ -572,12 +580,7 @@ func (tx *Tx) rotateActiveFile() error {
 	}
 
 	// reset ActiveFile
-	path := tx.db.getDataPath(tx.db.MaxFileID)
-	tx.db.ActiveFile, err = NewDataFile(path, tx.db.opt.SegmentSize, tx.db.opt.RWMode)
-	if err != nil {
-		return err
-	}
-
+	tx.db.ActiveFile = newFile
 	tx.db.ActiveFile.fileID = tx.db.MaxFileID
 	return nil
 }
